@@ -271,7 +271,13 @@ pub fn c18_own_messages_pointer(rep: &mut Report, backend: Bk) {
             let mut check = |z: &Client, steps: &Vec<String>, rep: &mut Report| {
                 if let Some(go) = z.group_obs(&w.gid) {
                     rep.evaluations += 1;
-                    if let Some(mm) = crate::props_e1::pointer_mismatch(&go) {
+                    // the head of the library's own default listing (its order is judged against the model in the E2 part;
+                    // the processing time takes part in it and is wall-clock, so it is not recomputed here)
+                    let listing = with_mdk!(z, m => m.get_messages(&w.gid, None)).unwrap_or_default();
+                    let head = listing.iter().find(|m| m.state.as_str() != "epoch_invalidated").map(|m| m.id.to_hex());
+                    let ptr = go.record["last_message_id"].as_str().map(|s| s.to_string());
+                    let mm = if head != ptr { Some((ptr, head)) } else { None };
+                    if let Some(mm) = mm {
                         rep.finding(
                             format!("C18|pointer-not-head-of-valid-messages|own-message-{label}-than-the-stored-head|{}|{backend:?}", if own_first { "own-first" } else { "peer-first" }),
                             format!("after [{}] the last-message pointer is not the head of the default order: {mm:?}", steps.join(" ; ")),
@@ -288,12 +294,20 @@ pub fn c18_own_messages_pointer(rep: &mut Report, backend: Bk) {
             let own = with_mdk!(z, m => m.create_message(&w.gid, rumor(&z.keys, &format!("own-{label}"), ts)));
             steps.push(format!("create_message(own @{ts}) -> {}", if own.is_ok() { "Ok" } else { "Err" }));
             check(&z, &steps, rep);
+            // the processing time is wall-clock: in the full-tie case the three steps are also spread over three seconds
+            let spread = own_first && label == "same-second";
             if own_first {
+                if spread {
+                    std::thread::sleep(std::time::Duration::from_millis(1100));
+                }
                 let r = z.process(&w.pool[peer].event);
                 steps.push(format!("process(peer message @{peer_ts}) -> {}", result_kind(&r)));
                 check(&z, &steps, rep);
             }
             if let Ok(ev) = own {
+                if spread {
+                    std::thread::sleep(std::time::Duration::from_millis(1100));
+                }
                 let r = z.process(&ev);
                 steps.push(format!("process(own echo) -> {}", result_kind(&r)));
                 check(&z, &steps, rep);
@@ -373,6 +387,104 @@ pub fn c07_own_echo_fields(rep: &mut Report, backend: Bk) {
                 }
                 prev = (f, gf);
             }
+        }
+    }
+    rep.states += 1;
+}
+
+/// C16, what a joiner does next: enumerated over backend x the joiner's role {admin, plain member} x its first own
+/// operation after accepting {self_update, rename (admin), invite a third user (admin)} x whether it rotates before or
+/// after that. Oracles: the obligation to rotate the key stays pending until a self-update of the joiner has been
+/// merged (no other commit of its discharges it); a user invited *by the joiner* can process and accept that
+/// invitation and lands in exactly the joiner's post-commit state.
+pub fn c16_joiner_goes_on(rep: &mut Report, backend: Bk) {
+    use mdk_storage_traits::groups::types::SelfUpdateState;
+    let cfg = Cfg::default();
+    let wid = |s: &str| nostr::EventId::from_slice(&sha2_32(s.as_bytes())).unwrap();
+    for joiner_admin in [true, false] {
+        for first_op in ["self_update", "rename", "invite"] {
+            if !joiner_admin && first_op != "self_update" {
+                continue;
+            }
+            let a = Client::new("A", Bk::Memory, &cfg);
+            let b = Client::new("B", backend, &cfg);
+            let c = Client::new("C", backend, &cfg);
+            let admins = if joiner_admin { vec![a.pk(), b.pk()] } else { vec![a.pk()] };
+            let cfgd = NostrGroupConfigData::new("chain".into(), "d".into(), None, None, None, vec![relay("wss://c.example")], admins);
+            let Ok(created) = with_mdk!(a, m => m.create_group(&a.pk(), vec![b.key_package_event()], cfgd)) else {
+                rep.machinery_errors.push("c16 chain: create_group".into());
+                continue;
+            };
+            let gid = created.group.mls_group_id.clone();
+            let _ = with_mdk!(a, m => m.merge_pending_commit(&gid));
+            let joined = with_mdk!(b, m => m.process_welcome(&wid("w-b"), &created.welcome_rumors[0]).and_then(|w| m.accept_welcome(&w))).is_ok();
+            if !joined {
+                rep.machinery_errors.push("c16 chain: B cannot join".into());
+                continue;
+            }
+            let obligation = |x: &Client| -> (bool, bool) {
+                let g = with_mdk!(x, m => m.get_group(&gid)).ok().flatten();
+                let listed = with_mdk!(x, m => m.groups_needing_self_update(3600)).map(|v| v.contains(&gid)).unwrap_or(false);
+                (matches!(g.map(|g| g.self_update_state), Some(SelfUpdateState::Required)), listed)
+            };
+            let case = format!("{backend:?}|joiner-admin={joiner_admin}|first={first_op}");
+            let mut check_pending = |when: &str, want: bool, rep: &mut Report| {
+                let (req, listed) = obligation(&b);
+                rep.case(&format!("joiner-goes-on|{case}|{when}|required={req}|listed={listed}"));
+                rep.evaluations += 1;
+                if req != want || listed != want {
+                    rep.finding(
+                        format!("C16|key-rotation-obligation|{}|{when}|joiner-admin={joiner_admin}", if want { "discharged-without-a-self-update" } else { "still-pending-after-the-self-update" }),
+                        format!("joiner B ({case}): {when}: self_update_state required={req}, listed by groups_needing_self_update={listed}, expected {want}"),
+                        json!({"backend": format!("{backend:?}"), "case": case, "when": when}),
+                    );
+                }
+            };
+            check_pending("after-accept", true, rep);
+            // the first own operation
+            let mut c_state: Option<(String, String)> = None;
+            match first_op {
+                "rename" => {
+                    let ok = with_mdk!(b, m => m.update_group_data(&gid, NostrGroupDataUpdate::new().name("renamed-by-the-joiner"))).is_ok() && with_mdk!(b, m => m.merge_pending_commit(&gid)).is_ok();
+                    if !ok {
+                        rep.outcome(&format!("joiner-rename-refused|{case}"));
+                    }
+                    check_pending("after-own-rename-merged", true, rep);
+                }
+                "invite" => {
+                    match with_mdk!(b, m => m.add_members(&gid, &[c.key_package_event()])) {
+                        Ok(r) => {
+                            let _ = with_mdk!(b, m => m.merge_pending_commit(&gid));
+                            check_pending("after-own-invitation-merged", true, rep);
+                            let rumor = r.welcome_rumors.and_then(|v| v.into_iter().next());
+                            let res = rumor.map(|rum| with_mdk!(c, m => m.process_welcome(&wid("w-c"), &rum).and_then(|w| m.accept_welcome(&w))));
+                            let ok = matches!(res, Some(Ok(_)));
+                            let core = |x: &Client| x.group_obs(&gid).and_then(|o| o.mls.map(|m| (format!("{}|{}", m.epoch, m.authenticator), format!("{:?}|{}", m.members, m.ext))));
+                            let (bc, cc) = (core(&b), core(&c));
+                            rep.case(&format!("joiner-invites|{case}|accepted={ok}|same-state={}", bc == cc));
+                            rep.evaluations += 1;
+                            if !ok {
+                                rep.finding(format!("C16|invitation-made-by-a-joiner-unusable|{}", res.map(|r| r.err().map(|e| err_variant(&e)).unwrap_or_default()).unwrap_or_else(|| "no-welcome-rumor".into())), "B joined through an invitation, then invited C: C cannot process / accept that invitation".into(), json!({"backend": format!("{backend:?}"), "case": case}));
+                            } else if bc != cc {
+                                rep.finding("C16|joiner-state-differs-from-inviter|inviter-is-a-joiner".into(), "C accepted the invitation of B (itself a joiner) and is not in B's post-commit state".into(), json!({"backend": format!("{backend:?}"), "inviter": bc, "joiner": cc}));
+                            }
+                            c_state = cc;
+                        }
+                        Err(e) => rep.outcome(&format!("joiner-invite-refused|{case}|{}", err_variant(&e))),
+                    }
+                }
+                _ => {}
+            }
+            let _ = c_state;
+            // the rotation itself
+            let ok = with_mdk!(b, m => m.self_update(&gid)).is_ok();
+            check_pending("self-update-created-not-merged", true, rep);
+            let ok = ok && with_mdk!(b, m => m.merge_pending_commit(&gid)).is_ok();
+            if !ok {
+                rep.machinery_errors.push(format!("c16 chain: self_update of the joiner failed ({case})"));
+                continue;
+            }
+            check_pending("after-self-update-merged", false, rep);
         }
     }
     rep.states += 1;
